@@ -54,6 +54,15 @@ def is_write(e):
     return ev_is(e, *STORAGE_WRITES) or ev_is(e, *MLS_MUTATORS) or ev_is(e, *MDK_EFFECTS)
 
 
+def env_fault(ob, p):
+    """does this path contain a storage-trait call that returned Err (an environment fault, not an input-dependent refusal)?"""
+    for e in p.trace:
+        if re.match(r'^<(S|Storage) as ', e.fn) and isinstance(e.ret, Opaque) and M.enum_kind(e.ret) == 'Result':
+            if ob.eng.prove(p, e.ret.discriminant() == 1)[0]:
+                return e
+    return None
+
+
 def vname(v):
     """variant name of an enum value (Agg) or None"""
     if isinstance(v, Agg) and v.variant:
